@@ -30,13 +30,16 @@ TRUSTED = [
     "C06 renderers: Spec.renderStat / Spec.renderStatus are transcriptions of do_task_stat / proc_pid_status (Name: escapes only \\n and \\\\); validated on every run against the live kernel's files of this process, its parent, PID 1, children renamed with prctl(PR_SET_NAME) to hostile names and task/<tid>/stat of threads of this process that renamed themselves (`w) S 1 2 3`, …), not verified",
     "C06 regex model: re.findall on the four bytes patterns KEY(SEP(\\d+)){n} [(?m)^ anchored], SEP in {\\t, \\s} with none/*/+ (from the translator), is modelled as leftmost, non-overlapping, maximal-run matching (digits and the separator class are disjoint, so greedy backtracking cannot change a match); patterns outside that family are pinned by their exact source only",
     "C06 int()/float(): modelled on optional '-' + ASCII digits (what the kernel prints); '+', '_' , exponents, inf/nan are not generated",
-    "C06 floats: implementation doubles are compared with the model's exact rationals within relative 1e-12",
+    "C06 floats: the theorems are about EXACT RATIONALS, the code computes IEEE-754 doubles; assumed: CPython's float(bytes) and float/int division are correctly rounded (unit round-off u = 2^-53, no overflow/underflow in range). Under that assumption the computed value is within 2u+u^2 (cpu_times, threads: two operations) resp. 3u+3u^2+u^3 (create_time: three, boot time < 2^53 exact) RELATIVE of the exact rational (C06_tick_quotient_rounding_bound, C06_create_time_rounding_bound, proved for every u); the correspondence accepts exactly these bounds and nothing looser (e.g. 2^64-1 ticks / 100 may be 3.85 s off = 2.1e-17 relative: 'exact' means 'the exact quotient, rounded twice')",
+    "C06 public name(): psutil/__init__.py Process.name() = the platform name() (the comm) plus the rule for possibly truncated names (>= 15 bytes: basename(cmdline()[0]) when that starts with the comm). The rule is modelled on argv[0] as given (Model publicName / Spec.publicName, C06_public_name_exact); the PARSING of /proc/<pid>/cmdline is C12's and trusted here: cases use NUL-terminated arguments without NUL/CR and no blank in a single-argument command line",
+    "C06 CLOCK_TICKS: per case the module constant is set to what the module's own defining expression (right-hand side of `CLOCK_TICKS = ...` from the snapshot) evaluates to with os.sysconf('SC_CLK_TCK') answering the case's tick rate; the live-record cases run with the value computed at import, which is also compared with os.sysconf of this machine",
+    "C06 int(): CPython >= 3.11 refuses decimal strings longer than sys.get_int_max_str_digits() (4300) with ValueError; the model's int() is unbounded. No kernel counter (<= 20 digits) comes near; C06_status_tokens_digits_only is a statement about the model beyond that length",
     "C06 /dev: glob's pattern matching is the real module's, run on a scratch tree holding one file per entry of the case (plus decoys); os.stat('/dev/..') is answered from the case (S_ISCHR/st_rdev/FileNotFoundError); the order of glob's result is the case's listing order",
     "C06 threads(): os.listdir of the task directory is scripted (shuffled order); a vanished thread = listed directory without stat file (ENOENT), or _pslinux.open_binary patched for that one path to raise ProcessLookupError / to return a file whose read() raises it (ESRCH); 'process gone at the end' = os.stat(/proc/<pid>) and os.path.exists(/proc/<pid>/stat) fail while the fake procfs still serves the file (no zombie records in that sub-family)",
 ]
 MANIFEST = {
-    "level_text": "Machine-checked Lean 4 proofs that the model of _parse_stat_file/name/ppid/status/cpu_times/create_time/cpu_num/terminal and of threads() inverts the kernel's stat renderer for EVERY comm byte string (any bytes, any number of parentheses, blanks, newlines), every state letter, unbounded counters, old-kernel records without the trailing fields (C06_stat_roundtrip and its per-method corollaries, C06_threads_exact, C06_old_kernel_iowait_zero), that PROC_STATUSES is the documented letter table (C06_status_letter_map, decide over the generated dict), and that uids/gids/num_threads/num_ctx_switches extract the real lines of a status file rendered with the kernel's Name: escaping for every name (C06_status_extract, C06_ctx_switches_extract), with groups that accept exactly non-empty ASCII-digit runs so that no byte string can make them raise ValueError (C06_status_tokens_digits_only, C06_status_match_shape). Round 2 adds the code around the parsers: terminal() through the real get_terminal_map over an abstract /dev in any listing order with vanishing entries and aliases (C06_terminal_map_exact_code: TerminalMapExact_Full for the code as it is, non-device files included, since get_terminal_map tests S_ISCHR - fact tmapChecksChr pinned by xcfg_good / cfg_tmap_checks_chr; refuted for the configuration without the test by a regular file with st_rdev 0, C06_terminal_nondevice_counterexample), histories of calls in one interpreter: the memoised map answers, i.e. every call is exact for the /dev of the FIRST terminal() call (C06_terminal_memoized, C06_terminal_first_scan_wins) and for the current /dev whenever /dev did not change (C06_terminal_unchanged_dev_exact); C06_terminal_stale_counterexample only characterises the memoisation (a pty created later is not seen; by design, beyond the property's quantifier), create_time() end to end from the text of /proc/stat and /proc/<pid>/stat with the BOOT_TIME pin (C06_boot_time_exact, C06_create_time_end_to_end, C06_create_time_uses_pinned_boot_time), and the VALUE and ORDER of threads() for every os.listdir order and every set of threads that vanish mid-scan (C06_threads_order: string order of the names; C06_threads_value, C06_threads_gone, C06_threads_old_kernel; C06_threads_value_any_signal / C06_threads_gone_any_signal: the same for every assignment of vanish signals - FileNotFoundError on open or ProcessLookupError on open/read - to the ended threads; C06_threads_liveness_checked_only_after_vanish), and the falsy BOOT_TIME pin 0.0 (C06_create_time_zero_boot_time_rereads, C06_create_time_two_calls: the full two-call history over any two /proc/stat texts). The theorems hold for the configuration cfg_good, a proof obligation fed by translator facts (indices, find/rfind, regex keys, anchoring and separator form - 'exactly one tab' is a fact, not a model constant -, binary open mode; cfg_status_patterns: the exact source of the four compiled status regexes as the imported module holds them, so that any edit of a pattern breaks the obligation; xcfg_good: glob patterns, FileNotFoundError guard, memoize, btime key/index, cached boot time, sort, vanish handling for both exception classes, initial value of the hit_enoent flag); for the pre-fix configurations the negations are proved with concrete witnesses (thread named `a) b`; process named `Uid:\\t0\\t0\\t0`; text-mode reading with `\\r`). Tie: translator + differential run of the real Process methods over a fake procfs and a redirected /dev, called plainly, twice inside oneshot() (every getter on warm caches, the platform create_time()/ppid() included), through as_dict(), on the objects of process_iter() and through process_iter(attrs).info; thread names are explored on their own (exhaustive short names and `x) yz` forms for secondary threads, live task/<tid>/stat records of threads that renamed themselves).",
-    "level_note": "Trusted: Lean kernel + {propext, Classical.choice, Quot.sound}; translator; correspondence harness; kernel renderers (validated against the live kernel each run); CPython int/float/split/re modelled; floats = exact rationals within 1e-12 relative.",
+    "level_text": "Machine-checked Lean 4 proofs that the model of _parse_stat_file/name/ppid/status/cpu_times/create_time/cpu_num/terminal and of threads() inverts the kernel's stat renderer for EVERY comm byte string (any bytes, any number of parentheses, blanks, newlines), every state letter, unbounded counters, old-kernel records without the trailing fields (C06_stat_roundtrip and its per-method corollaries, C06_threads_exact, C06_old_kernel_iowait_zero), that PROC_STATUSES is the documented letter table (C06_status_letter_map, decide over the generated dict), and that uids/gids/num_threads/num_ctx_switches extract the real lines of a status file rendered with the kernel's Name: escaping for every name (C06_status_extract, C06_ctx_switches_extract), with groups that accept exactly non-empty ASCII-digit runs so that no byte string can make them raise ValueError (C06_status_tokens_digits_only, C06_status_match_shape). Round 2 adds the code around the parsers: terminal() through the real get_terminal_map over an abstract /dev in any listing order with vanishing entries and aliases (C06_terminal_map_exact_code: TerminalMapExact_Full for the code as it is, non-device files included, since get_terminal_map tests S_ISCHR - fact tmapChecksChr pinned by xcfg_good / cfg_tmap_checks_chr; refuted for the configuration without the test by a regular file with st_rdev 0, C06_terminal_nondevice_counterexample), histories of calls in one interpreter: the memoised map answers, i.e. every call is exact for the /dev of the FIRST terminal() call (C06_terminal_memoized, C06_terminal_first_scan_wins) and for the current /dev whenever /dev did not change (C06_terminal_unchanged_dev_exact); C06_terminal_stale_counterexample only characterises the memoisation (a pty created later is not seen; by design, beyond the property's quantifier), create_time() end to end from the text of /proc/stat and /proc/<pid>/stat with the BOOT_TIME pin (C06_boot_time_exact, C06_create_time_end_to_end, C06_create_time_uses_pinned_boot_time), and the VALUE and ORDER of threads() for every os.listdir order and every set of threads that vanish mid-scan (C06_threads_order: string order of the names; C06_threads_value, C06_threads_gone, C06_threads_old_kernel; C06_threads_value_any_signal / C06_threads_gone_any_signal: the same for every assignment of vanish signals - FileNotFoundError on open or ProcessLookupError on open/read - to the ended threads; C06_threads_liveness_checked_only_after_vanish), and the falsy BOOT_TIME pin 0.0 (C06_create_time_zero_boot_time_rereads, C06_create_time_two_calls: the full two-call history over any two /proc/stat texts). The theorems hold for the configuration cfg_good, a proof obligation fed by translator facts (indices, find/rfind, regex keys, anchoring and separator form - 'exactly one tab' is a fact, not a model constant -, binary open mode; cfg_status_patterns: the exact source of the four compiled status regexes as the imported module holds them, so that any edit of a pattern breaks the obligation; xcfg_good: glob patterns, FileNotFoundError guard, memoize, btime key/index, cached boot time, sort, vanish handling for both exception classes, initial value of the hit_enoent flag); for the pre-fix configurations the negations are proved with concrete witnesses (thread named `a) b`; process named `Uid:\\t0\\t0\\t0`; text-mode reading with `\\r`). Tie: translator + differential run of the real Process methods over a fake procfs and a redirected /dev, called plainly, twice inside oneshot() (every getter on warm caches, the platform create_time()/ppid() included), through as_dict(), on the objects of process_iter() and through process_iter(attrs).info; Audit round: every tick theorem carries 0 < tck and needs it (C06_zero_tick_rate_raises: ZeroDivisionError at 0, no x/0 = 0 artefact); the PUBLIC name() with a non-empty command line (C06_public_name_exact: documented rule for 15-byte names; C06_public_name_short_is_comm: a shorter comm is returned byte for byte whatever argv[0] is; C06_public_name_extends_comm); histories of ANY length of create_time() and boot_time() calls interleaved over changing /proc/stat (C06_time_call_history); the report order of threads() restated with List.Lex (C06_threads_order_lex); anchors that are defining expressions pinned by their source text (cfg_source_anchors: CLOCK_TICKS = os.sysconf('SC_CLK_TCK'), the single S_ISCHR condition of get_terminal_map, the three guards and the source of the public name rule, no extra regex flags). FLOATS: all theorems are about exact rationals; the rounding of the doubles the code computes is bounded by C06_tick_quotient_rounding_bound / C06_create_time_rounding_bound under the explicit hypothesis of correctly rounded operations, and that bound is the tolerance of the correspondence. Thread names are explored on their own (exhaustive short names and `x) yz` forms for secondary threads, live task/<tid>/stat records of threads that renamed themselves).",
+    "level_note": "Trusted: Lean kernel + {propext, Classical.choice, Quot.sound}; translator; correspondence harness; kernel renderers (validated against the live kernel each run); CPython int/float/split/re modelled; theorems over exact rationals; doubles compared within the proved rounding bound (2u+u^2 / 3u+3u^2+u^3, u = 2^-53) under the assumption that float() and / are correctly rounded.",
     "technique": "Lean 4 round-trip proofs parse(render r) = view r over all byte strings + translator-fed proof obligation + differential correspondence through a fake procfs",
     "design_ref": "DESIGN.md §5 C06",
 }
